@@ -340,6 +340,18 @@ def d22():
     return n == [(0, 60, 0, 48, 100)], f"a half note (48 ticks) lying inside one 4/4 bar comes out as {n}: the default note values end at 36"
 
 
+@witness("D23", ["C07"])
+def d23():
+    # a section that starts with the end of a note and ends with the start of one, repeated with plain concatenate:
+    # the piece holds the same NOTE_ON object twice; the first occurrence is closed, the second is not
+    m = seq_rel([roff(60), w(12), ron(60), w(12)])
+    m.concatenate([m])
+    m.normalise()
+    v = [(x.message_type.value, x.time, x.note) for x in m.rel._messages]
+    notes = [x[0] for x in v if x[0] in ("note_on", "note_off")]
+    return notes == ["note_on", "note_off"], f"normalise of the repeated section gives {v}: orphan note-off / unclosed note-on (the closed occurrence of the shared NOTE_ON was removed instead of the unclosed one)"
+
+
 def run(ids=None):
     res = {}
     for k, (props, f) in W.items():
